@@ -131,15 +131,47 @@ theorem lineSearch_good (O : Oracles α) (dir : Dir D α) (P : Prob α) (pr : Pa
 
 /-! ### Initialisation -/
 
-theorem initQub_good (O : Oracles α) (P : Prob α) (pr : Params α) (f : Nat) (c : Iterate α) (t b : Nat)
-    (h : Good O P c) : Good O P (initQub O P pr f c t b).1 := by
+theorem initQub_good (O : Oracles α) (P : Prob α) (pr : Params α) (stop : Nat → Bool) (f : Nat)
+    (c : Iterate α) (t b : Nat)
+    (h : Good O P c) : Good O P (initQub O P pr stop f c t b).1 := by
   induction f generalizing c t b with
   | zero => simpa [initQub] using h
   | succ f ih =>
     unfold initQub
     split_ifs
+    · exact h
     · exact ih _ _ _ (good_evalStep O P _ (src_of_same O c _ h.1 rfl rfl rfl rfl))
     · exact h
+
+/-- **Once the flag is visible the initial step-size loop makes no further call.** -/
+theorem initQub_stop_noop (O : Oracles α) (P : Prob α) (pr : Params α) (stop : Nat → Bool) (f : Nat)
+    (c : Iterate α) (t b : Nat) (h : stop t = true) :
+    initQub O P pr stop (f + 1) c t b = (c, t, b, false) := by
+  unfold initQub; simp [h]
+
+/-- With a flag that is never lowered and visible from tick `t₀` on, the initial step-size loop
+    entered at tick `t` is left at tick `≤ max t (t₀ + fwdTicks − 1)`: a backtrack (`eval_prox` is
+    not an event; `eval_forward_hat` makes `fwdTicks` calls) is only started while the flag is
+    invisible (tick `< t₀`). -/
+theorem initQub_tick_bound (O : Oracles α) (P : Prob α) (pr : Params α) (stop : Nat → Bool)
+    (hm : ∀ a b, a ≤ b → stop a = true → stop b = true) (t0 : Nat) (h0 : stop t0 = true)
+    (f : Nat) (c : Iterate α) (t b : Nat) :
+    (initQub O P pr stop f c t b).2.1 ≤ max t (t0 + P.fwdTicks - 1) := by
+  induction f generalizing c t b with
+  | zero => simp only [initQub]; omega
+  | succ f ih =>
+    unfold initQub
+    by_cases hst : stop t
+    · simp only [hst, if_true]; omega
+    · simp only [hst, Bool.false_eq_true, if_false]
+      have hlt : t < t0 := by
+        apply Nat.lt_of_not_le
+        intro hc
+        exact hst (hm t0 t hc h0)
+      split_ifs
+      · refine Nat.le_trans (ih _ (t + P.fwdTicks) (b + 1)) ?_
+        omega
+      · simp only []; omega
 
 theorem initialLipschitz_src (O : Oracles α) (pr : Params α) (c n : Iterate α) :
     SrcCons O (initialLipschitz O pr c n).1 := by
@@ -155,15 +187,16 @@ theorem initIterates_src (O : Oracles α) (P : Prob α) (pr : Params α) (u0 gV 
     | exact initialLipschitz_src O pr _ _
     | exact src_evalFwdBwd O _
 
-theorem initState_good (O : Oracles α) (P : Prob α) (d0 : D) (pr : Params α) (u0 gV gQ : Vec α)
-    (gS e0 : α) (s : St α D) (h : initState O P d0 pr u0 gV gQ gS e0 = .inr s) :
+theorem initState_good (O : Oracles α) (P : Prob α) (d0 : D) (pr : Params α)
+    (stop : Nat → Bool) (u0 gV gQ : Vec α)
+    (gS e0 : α) (s : St α D) (h : initState O P d0 pr stop u0 gV gQ gS e0 = .inr s) :
     Good O P s.curr ∧ s.k = 0 := by
   unfold initState at h
   simp only [] at h
   split_ifs at h
   injection h with h
   subst h
-  exact ⟨initQub_good O P pr _ _ _ _ (good_evalStep O P _
+  exact ⟨initQub_good O P pr stop _ _ _ _ (good_evalStep O P _
     (src_of_same O _ _ (initIterates_src O P pr u0 gV gS) rfl rfl rfl rfl)), rfl⟩
 
 /-! ### Main loop -/
